@@ -35,6 +35,8 @@ var probeRealms = []string{"", "\x01", "\x01\xff", "\x01", "\x02", ""}
 // batchOnly: every goroutine hammers the ONE shared batch object of its home view (Set / Delete / Commit / Cancel and a rare Get):
 // the batch mutex is then (nearly) the only synchronisation between them, so an access to the batch's private maps outside
 // it is not ordered by anything else - what the race detector needs to see it.
+var oneHome bool // set around genProbePlan for the single-view plan of the -race probe
+
 func genProbePlan(rng *hx.Rng, wrap, g, perG, rounds int, batchOnly bool) []string {
 	// every goroutine keeps to ONE view object for most of its calls (a lock that protects only "its" view is then not
 	// enough to protect the map); the goroutines are spread over `homes` of the six objects: with 1..3 homes many goroutines
@@ -42,6 +44,9 @@ func genProbePlan(rng *hx.Rng, wrap, g, perG, rounds int, batchOnly bool) []stri
 	homes := hx.Pick(rng, []int{1, 2, 3, len(probeRealms), len(probeRealms)})
 	if batchOnly {
 		homes = rng.Range(1, 2)
+	}
+	if oneHome {
+		homes = 1 // every goroutine on ONE view object: whatever a view keeps per object is shared by all of them
 	}
 	first := rng.Intn(len(probeRealms))
 	plan := []string{fmt.Sprintf("x probe wrap=%d goroutines=%d rounds=%d homes=%d batchonly=%v", wrap, g, rounds, homes, batchOnly)}
